@@ -1,13 +1,16 @@
 """C11 reporting periods partition the window (date.NewPartition / Align / StartOf / EndOf)"""
 PID = "C11"
 THEOREM_FILE = "Properties/C11.v"
+NEEDS_KNUT = True
 
 RULE = ("random windows (month ends, leap days, far years, inverted, single-day) x 6 intervals x --last in "
         "{0,1,2,3,5,12,100} through date.NewPartition, each with ~20 Align/Contains probes around the window and "
         "period boundaries; the requested period (--from/--to, with and without --from, inverted) against the journal's period "
         "in every relative position (nested, overlapping, touching, disjoint on either side) through Period.Clip followed by "
         "NewPartition, as cmd/flags Multiperiod.Partition combines them (op C11.clip: the clipped window must be the "
-        "intersection and the periods must partition it); plus Go's AddDate/Weekday/StartOf/EndOf on a stride of calendar days; thorough adds every "
+        "intersection and the periods must partition it); the header of `knut balance --csv` on small journals in shuffled, "
+        "oldest-first and newest-first file order (op C11.cols: the columns must be the period ends of the requested window "
+        "clipped to the journal's period as the directives define it); plus Go's AddDate/Weekday/StartOf/EndOf on a stride of calendar days; thorough adds every "
         "(s,e) in a 17-month range x 6 intervals x 5 last values and every day of years 0001-9998.  Non-trivial: the "
         "window spans at least one unit boundary (more than one period) or last > 0; distinct by input.")
 
@@ -27,9 +30,9 @@ def plan(tier, seed):
         return [("C11", seed, 4000, []),
                 ("C11cal", seed, 6000, ["0001-01-01", "601"]),
                 ("C11cal", seed + 1, 3000, ["1999-01-01", "1"]),
-                ("C11clip", seed, 2000, [])]
+                ("C11clip", seed, 2000, []), ("C11cols", seed, 250, [])]
     return [("C11", seed, 60000, []),
-            ("C11clip", seed, 100000, []),
+            ("C11clip", seed, 100000, []), ("C11cols", seed, 10000, []),
             ("C11sweep", seed, 0, ["2019-11-01", "2021-03-31"]),
             ("C11cal", seed, 3651700, ["0001-01-01", "1"])]
 
@@ -72,4 +75,5 @@ LEVEL_TEXT = ("Theorems C11_partition/C11_last/C11_align_all/C11_contains/C11_on
               "The model is tied to lib/common/date/date.go and Go's time package by running both on the same inputs on every check.")
 LEVEL_NOTE = ("Trusted: Coq kernel + vm_compute; extraction and the OCaml driver; the Go harness; that Model/Date.v is date.go "
               "(hand-written, validated by the correspondence: quick 4000 windows + 9000 calendar days, thorough 1.6M windows and "
-              "every day of years 1-9998). Of cmd/flags only Multiperiod.Partition's Clip + NewPartition is modelled; cobra flag parsing is not.")
+              "every day of years 1-9998). Of cmd/flags only Multiperiod.Partition's Clip + NewPartition is modelled here (flag values: C14's Model/Flags.v); the journal's period is "
+              "Spec.LedgerSpec.journal_period (proved equal to the builder's in C02's development).")
